@@ -1,9 +1,10 @@
 """C04 — Requests stay confined to the bucket and object they name (DESIGN.md §7 C04)."""
+import base64
 import json, os, subprocess, urllib.parse
 from vlib import common, coq, gobuild, gw, s3c, e2e
 from vlib.common import coq_str, coq_list, coq_bool
 
-THEOREMS = ["C04_clean_names_confined", "C04_dot_segments_refused", "C04_refused_or_confined"]
+THEOREMS = ["C04_clean_names_confined", "C04_dot_segments_refused", "C04_refused_or_confined", "C04_reserved_namespace_refused", "C04_valid_name_not_reserved"]
 TARGETS = ["Properties/C04.vo", "Check/PathCheck.vo"]
 CANARY = b"CANARY-OUTSIDE-ROOT-51c2"
 VICTIM = b"VICTIM-OTHER-BUCKET-88ab"
@@ -204,8 +205,63 @@ def run(chk):
             if got is not None and got != _h.md5(b"old-of-a").hexdigest():
                 chk.fail("c04:other-objects-version-read:" + what.split(" ")[0], "%s from bk3/cs/a?versionId=null produced content with MD5 %s: not the null version of cs/a (%s)%s" % (
                     what, got, row["old_a"], "; it is the null version of cs/b" if got == row["old_b"] else ""), row)
+        # ---- a key with a trailing "/" and the same key without it are two keys (a directory object and a file object): a request that
+        # names the one never reads or changes the attributes of the other
+        ok = root.req("PUT", "/bklock", headers={"x-amz-bucket-object-lock-enabled": "true"}).status == 200
+        ok &= root.req("PUT", "/bklock/x", body=b"file-x").status == 200 and root.req("PUT", "/bklock/d/", body=b"").status == 200 and root.req("PUT", "/bklock/d/child", body=b"c").status == 200
+        chk.require(ok, "c04:setup", "scenario setup (lock bucket) failed")
+        TAG = b"<Tagging><TagSet><Tag><Key>who</Key><Value>%s</Value></Tag></TagSet></Tagging>"
+        root.req("PUT", "/bklock/x", query={"tagging": ""}, body=TAG % b"x"); root.req("PUT", "/bklock/d/", query={"tagging": ""}, body=TAG % b"d")
+        def attrs_of(key):
+            t = root.req("GET", "/bklock/" + key, query={"tagging": ""}); lh = root.req("GET", "/bklock/" + key, query={"legal-hold": ""}); rt = root.req("GET", "/bklock/" + key, query={"retention": ""})
+            return (t.status, sorted((e.findtext("Key"), e.findtext("Value")) for e in t.xml().iter("Tag")) if t.status == 200 and t.xml() is not None else None,
+                    lh.status, lh.xml().findtext("Status") if lh.status == 200 and lh.xml() is not None else None, rt.status, rt.xml().findtext("Mode") if rt.status == 200 and rt.xml() is not None else None)
+        LH = b"<LegalHold><Status>ON</Status></LegalHold>"
+        RET = b"<Retention><Mode>GOVERNANCE</Mode><RetainUntilDate>2031-01-01T00:00:00Z</RetainUntilDate></Retention>"
+        for real, other in (("x", "x/"), ("d/", "d")):
+            for opname, method, q, body in (("PutObjectTagging", "PUT", {"tagging": ""}, TAG % b"intruder"), ("DeleteObjectTagging", "DELETE", {"tagging": ""}, b""), ("GetObjectTagging", "GET", {"tagging": ""}, b""),
+                                            ("PutObjectLegalHold", "PUT", {"legal-hold": ""}, LH), ("GetObjectLegalHold", "GET", {"legal-hold": ""}, b""),
+                                            ("PutObjectRetention", "PUT", {"retention": ""}, RET), ("GetObjectRetention", "GET", {"retention": ""}, b"")):
+                before = attrs_of(real)
+                hd = {"Content-MD5": base64.b64encode(_h.md5(body).digest()).decode()} if body and method == "PUT" else {}
+                r = root.req(method, "/bklock/" + other, query=q, body=body, headers=hd)
+                after_ = attrs_of(real)
+                chk.case(("other-kind", real, other, opname), True); chk.traces += 1
+                chk.count("other-kind:%s:%d" % (opname, r.status))
+                row = {"stored_key": real, "request": "%s on key %r" % (opname, other), "status": r.status, "code": r.code, "attributes_before": before, "attributes_after": after_}
+                rows.append(row)
+                leaked = method == "GET" and r.status == 200
+                if after_ != before or leaked:
+                    chk.fail("c04:other-kind-key-%s:%s" % ("read" if leaked and after_ == before else "modified", opname),
+                             "%s on the key %r (which does not exist: the stored key is %r) answered %d and %s" % (
+                                 opname, other, real, r.status, "returned that object's data" if leaked and after_ == before else "changed that object's attributes from %r to %r" % (before, after_)), row)
+                    # put the attributes back for the next operation
+                    root.req("PUT", "/bklock/" + real, query={"tagging": ""}, body=TAG % (b"x" if real == "x" else b"d"))
+                    root.req("PUT", "/bklock/" + real, query={"legal-hold": ""}, body=b"<LegalHold><Status>OFF</Status></LegalHold>")
         chk.tie("gateway still running", g.alive(), g.log_tail())
     chk.samples.extend(rows[7:10])
+
+    # ---- the access decision of a copy, taken before the backend validates the source: the only bucket names the backend is asked
+    # about are the destination and single path elements (a name like ".." would be looked up above the gateway root)
+    srcs = ["bk/key", "../x", "..", "../../etc/passwd", "./x", ".", "a/../../x", "/bk/key", "/../x", "..\\x/y", "bk\x00/k", "%2e%2e/x", "..%2fx/k", "../", "./", "bk/../../x",
+            ".../x", "..a/x", "a../x", "bk//k", " ../x"]
+    for _ in range(60 if quick else 600):
+        srcs.append("/".join(rnd.choice(["..", ".", "a", "", "bk", "...", "..b"]) for _ in range(rnd.randrange(1, 5))))
+    cobs = subprocess.run([corr, "copyaccess"], input=("\n".join(n.encode("latin1").hex() or "-" for n in srcs) + "\n").encode(), stdout=subprocess.PIPE,
+                          timeout=120, env=common.env()).stdout.decode().split("\n")[:len(srcs)]
+    nbad = 0
+    for src, o in zip(srcs, cobs):
+        chk.case(("copyaccess", src), True); chk.traces += 1
+        asked = [bytes.fromhex(x).decode("latin1") for x in o[len("asked="):].split(",") if x] if o.startswith("asked=") else None
+        chk.count("copyaccess:%s" % ("panic" if asked is None else "asked-%d" % len(asked)))
+        if asked is None:
+            chk.fail("c04:copy-access-panic", "auth.VerifyObjectCopyAccess on copy source %r: %s" % (src, o), {"copy_source": src, "observed": o}); nbad += 1; continue
+        for a in asked:
+            if a in (".", "..") or "/" in a or "\x00" in a:
+                chk.fail("c04:copy-access-looks-up-bucket:%s" % a.encode("latin1").hex(), "for the copy source %r the access decision asks the backend for the ACL of the bucket %r, "
+                         "which the posix backend resolves relative to the gateway root (outside it for \"..\")" % (src, a), {"copy_source": src, "asked": asked})
+                nbad += 1
+    chk.tie("T2 auth.VerifyObjectCopyAccess asks the backend only about single path elements, on %d copy sources" % len(srcs), nbad == 0, "%d sources" % nbad)
 
     # ---- T2: the name validation helper against the model
     names = gen_names(rnd, 1200 if quick else 12000)
@@ -232,7 +288,7 @@ def run(chk):
 
 
 def gen_names(rnd, n):
-    segs = ["a", "b", "..", ".", "", "...", ".a", "a.", "..a", "a..", " ", "%2e%2e", "\\", "..\\", "c d"]
+    segs = ["a", "b", "..", ".", "", "...", ".a", "a.", "..a", "a..", " ", "%2e%2e", "\\", "..\\", "c d", ".sgwtmp", ".sgwtmp", ".sgwtmpx", "sgwtmp"]
     out = ["", "/", "a", "a/b", "a/", "a//b", "../x", "a/../b", "a/./b", "./a", "a/..", "a/.", "..", ".", "/a", "a/b/", "a/b//", "...", "a/.../b", "a\\..\\b"]
     while len(out) < n:
         k = "/".join(rnd.choice(segs) for _ in range(rnd.randrange(1, 6)))
